@@ -105,7 +105,7 @@ def run_chunk(args):
     faulthandler.dump_traceback_later(max(30.0, deadline - time.time() + 60), exit=True)
     try:  # a decoder fed a garbage count must hit MemoryError quickly, not swap the machine
         import resource
-        resource.setrlimit(resource.RLIMIT_AS, (8 << 30, 8 << 30))
+        resource.setrlimit(resource.RLIMIT_AS, (3 << 30, 3 << 30))
     except Exception:
         pass
     stats = Counter()
